@@ -19,6 +19,12 @@ func (x *Exec) atomicStep(st *State, fi int, site ssa.Instruction, anchor string
 }
 
 func (x *Exec) ghostAt(st *State, fi int, anchor, when string, res *Value) {
+	x.ghostAtX(st, fi, anchor, when, res, nil)
+}
+
+// ghostAtX: like ghostAt, with extra named values (call arguments arg0..argN)
+// visible to the ghost statements.
+func (x *Exec) ghostAtX(st *State, fi int, anchor, when string, res *Value, extra map[string]Value) {
 	if fi >= len(st.frames) {
 		return
 	}
@@ -50,7 +56,7 @@ func (x *Exec) ghostAt(st *State, fi int, anchor, when string, res *Value) {
 		}
 		x.usedGhost[fmt.Sprintf("%s:%d", c.Key, g.Line)] = true
 		for _, s := range g.Stmts {
-			x.ghostStmt(st, fi, c, g, s, cond, res)
+			x.ghostStmt(st, fi, c, g, s, cond, res, extra)
 		}
 	}
 }
@@ -90,8 +96,11 @@ func (x *Exec) ghostAtStore(st *State, fi int, l *Loc) {
 	x.ghostAt(st, fi, fmt.Sprintf("%s#%d", key, fr.callIdx[key]), "", nil)
 }
 
-func (x *Exec) ghostStmt(st *State, fi int, c *Contract, g *GhostStmt, s string, cond Term, res *Value) {
+func (x *Exec) ghostStmt(st *State, fi int, c *Contract, g *GhostStmt, s string, cond Term, res *Value, extra map[string]Value) {
 	vals := map[string]Value{}
+	for k, v := range extra {
+		vals[k] = v
+	}
 	if res != nil {
 		vals["result"] = *res
 		for i, r := range res.Tup {
